@@ -631,8 +631,8 @@ def run(ctx):
     ctx.assumptions = ['exact arithmetic: the theorems hold over the reals; acos/sqrt/atan2 enter as parameters with their defining relations',
                        'float residual: implementation compared with the atan2 reference at 1e-6 degrees (1e-4 at planar arrangements)',
                        'cell angles with sin(gamma) != 0 and positive volume']
-    n = ctx.budget(500, 30000)
-    m = ctx.budget(250, 8000)
+    n = ctx.budget(3000, 60000)
+    m = ctx.budget(1200, 15000)
     cases = [WITNESS, CLOCKWISE, TYPO]
     for _ in range(n):
         cases.append(make_geom(ctx.rng))
